@@ -44,7 +44,8 @@ CLAIMED = {
              "reproduce stored canonical forms. Seeded sampling; evidence, not proof. As built: DESIGN.md section 8.",
         ref="3.5",
         note="Trusted: the 150-line backtracking reference (dsim/props/graphref.py); the rule that a pure temporary's address may be "
-             "re-issued immediately. Stubs: id, time. Real: canon.py, automorphism.py, backend/conversion, networkx VF2."),
+             "re-issued immediately. Stubs: id, time. Real: canon.py, automorphism.py, wl_canon.py (sound checks), backend/conversion, "
+             "networkx VF2, a peer interpreter (dsim/peer.py) running the same real code."),
     "C15": dict(
         text="Seeded search over operation histories of the real CRNHyperGraph against a dict reference model: all four "
              "redundant indices, species set, labels and dense+sparse incidence matrix of every live network are compared "
